@@ -16,16 +16,16 @@ set_option linter.unusedVariables false
 namespace CifModel.Model.Parser
 open CifModel CifModel.Model CifModel.Model.Lexer CifModel.Gen.ErrCodes
 
-/-- what the documentation asks of the state in which a call is made, beyond consistency: the code of a new block / save frame is not
-    in use; a packet is given to the LAST loop of its container, which is not the scalar loop and has one name per value (and the
-    packet is not empty); a new loop has names, none of them in use in the container, no two equal -/
+/-- what the documentation asks of the state in which a call is made, beyond consistency: the code of a new block / save frame is
+    valid unless the creation is the lenient one, and not in use; a packet is given to the LAST loop of its container, which is not the scalar loop and has one name per value (and the
+    packet is not empty); a new loop has names, all of them valid data names, none of them in use in the container, no two equal -/
 def SOp.docOk (o : Opts) : SOp → Cif → Prop
-  | .mkBlock code _, c => c.any (codeIs o.norm (o.norm code)) = false
-  | .mkFrame parent code _, c =>
+  | .mkBlock code lenient, c => (lenient = true ∨ isValidName false code = true) ∧ c.any (codeIs o.norm (o.norm code)) = false
+  | .mkFrame parent code lenient, c => (lenient = true ∨ isValidName false code = true) ∧
     ((Option.map Container.frames (getIn o.norm parent c)).getD []).any (codeIs o.norm (o.norm code)) = false
   | .addPkt path vals, c => vals ≠ [] ∧ ∀ cc, getIn o.norm path c = some cc →
       ∃ l, cc.loops.getLast? = some l ∧ Parser.isScalarLoop l = false ∧ l.names.length = vals.length
-  | .mkLoop path names, c => names ≠ [] ∧ ∀ cc, getIn o.norm path c = some cc →
+  | .mkLoop path names, c => names ≠ [] ∧ (names.any fun n => !isValidName true n) = false ∧ ∀ cc, getIn o.norm path c = some cc →
       ((names.any fun n => hasItem o.norm cc (o.norm n)) || hasDup (names.map o.norm)) = false
   | _, _ => True
 
@@ -438,7 +438,10 @@ theorem parseLoopT_presT (o : Opts) (pre0 : Cif) (fuel : Nat) (s : PS) (cont : O
           intro e; rw [e] at hnames; exact hnames rfl
         split
         · exact HTT.failThen _ _ (fun _ h => h)
-        · apply HTT.bind (mid := fun cif c => OkR o c ∧ cif = c) HTT.getCif
+        · rename_i hvalid
+          have hvalid' : ((List.filterMap id slots).any fun n => !isValidName true n) = false := by
+            simpa using hvalid
+          apply HTT.bind (mid := fun cif c => OkR o c ∧ cif = c) HTT.getCif
           intro cif
           have hcreate : ∀ (k : Option Path → PT PS), (∀ la, (la ≠ none → 0 < keptN slots) → PresT o pre0 (ILR o la (keptN slots)) (k la)) →
               (∀ cc, getIn o.norm path cif = some cc →
@@ -452,7 +455,7 @@ theorem parseLoopT_presT (o : Opts) (pre0 : Cif) (fuel : Nat) (s : PS) (cont : O
             · apply HTT.emit
               rintro c ⟨hok, rfl⟩
               have := ILR_mkLoop o path slots cif hok hcl
-              exact ⟨this.okR, ⟨hnn, hcl⟩, this⟩
+              exact ⟨this.okR, ⟨hnn, hvalid', hcl⟩, this⟩
             · intro _
               apply HTT.bind (mid := fun la c => ILR o la (keptN slots) c ∧ (la ≠ none → 0 < keptN slots))
                 (HTT.pure _ (fun c h => ⟨h, fun _ => hposn⟩))
@@ -487,15 +490,15 @@ theorem createInT_presT (o : Opts) (pre0 : Cif) (isBlock : Bool) (parent : Path)
     fun code line col => (PresT.liftP (fun c => OkR o c ∧ cif = c) _ (fun _ => by keepq) (by keepq)).conseq
       (fun _ h => h) (fun _ _ h => h) (fun _ h => h.1)
   cases isBlock <;> simp only [Bool.false_eq_true, if_false, if_true]
-  · have hadd : ∀ (lenient : Bool) (a : Path),
+  · have hadd : ∀ (lenient : Bool) (a : Path), (lenient = true ∨ isValidName false code = true) →
         ((Option.map Container.frames (getIn o.norm parent cif)).getD []).any (codeIs o.norm (o.norm code)) ≠ true →
         HTT o pre0 (fun c => OkR o c ∧ cif = c) (PT.bind (Parser.emit o (.mkFrame parent code lenient)) fun _ => PT.pure a)
           (fun _ => OkR o) (OkR o) := by
-      intro lenient a hx
+      intro lenient a hl hx
       apply HTT.bind (mid := fun _ c => OkR o c)
       · apply HTT.emit
         rintro c ⟨hok, rfl⟩
-        exact ⟨okR_mkFrame o parent code lenient cif hok hx, by simpa [SOp.docOk] using hx, okR_mkFrame o parent code lenient cif hok hx⟩
+        exact ⟨okR_mkFrame o parent code lenient cif hok hx, ⟨hl, by simpa using hx⟩, okR_mkFrame o parent code lenient cif hok hx⟩
       · intro _
         exact HTT.pure _ (fun _ h => h)
     split
@@ -504,19 +507,21 @@ theorem createInT_presT (o : Opts) (pre0 : Cif) (isBlock : Bool) (parent : Path)
       split
       · exact hrep _ _ _ _
       · rename_i hx
-        exact hadd _ _ hx
-    · split
+        exact hadd _ _ (Or.inl rfl) hx
+    · rename_i hvalid
+      split
       · exact hrep _ _ _ _
       · rename_i hx
-        exact hadd _ _ hx
-  · have hadd : ∀ (lenient : Bool) (a : Path), cif.any (codeIs o.norm (o.norm code)) ≠ true →
+        exact hadd _ _ (Or.inr (by simpa using hvalid)) hx
+  · have hadd : ∀ (lenient : Bool) (a : Path), (lenient = true ∨ isValidName false code = true) →
+        cif.any (codeIs o.norm (o.norm code)) ≠ true →
         HTT o pre0 (fun c => OkR o c ∧ cif = c) (PT.bind (Parser.emit o (.mkBlock code lenient)) fun _ => PT.pure a)
           (fun _ => OkR o) (OkR o) := by
-      intro lenient a hx
+      intro lenient a hl hx
       apply HTT.bind (mid := fun _ c => OkR o c)
       · apply HTT.emit
         rintro c ⟨hok, rfl⟩
-        exact ⟨okR_mkBlock o code lenient cif hok hx, by simpa [SOp.docOk] using hx, okR_mkBlock o code lenient cif hok hx⟩
+        exact ⟨okR_mkBlock o code lenient cif hok hx, ⟨hl, by simpa using hx⟩, okR_mkBlock o code lenient cif hok hx⟩
       · intro _
         exact HTT.pure _ (fun _ h => h)
     split
@@ -525,11 +530,12 @@ theorem createInT_presT (o : Opts) (pre0 : Cif) (isBlock : Bool) (parent : Path)
       split
       · exact hrep _ _ _ _
       · rename_i hx
-        exact hadd _ _ hx
-    · split
+        exact hadd _ _ (Or.inl rfl) hx
+    · rename_i hvalid
+      split
       · exact hrep _ _ _ _
       · rename_i hx
-        exact hadd _ _ hx
+        exact hadd _ _ (Or.inr (by simpa using hvalid)) hx
 
 theorem pruneT_presT (o : Opts) (pre0 : Cif) (path : Path) (s : PS) :
     PresT o pre0 (OkR o) (PT.bind (Parser.emit o (.prune path)) fun _ => PT.pure s) :=
@@ -573,7 +579,7 @@ theorem anonT_presT {β} (o : Opts) (pre0 : Cif) (K : PT β) (hK : PresT o pre0 
     apply HTT.bind (mid := fun _ c => OkR o c)
     · apply HTT.emit
       rintro c ⟨hok, rfl⟩
-      exact ⟨okR_mkBlock o [] true cif hok hx, by simpa [SOp.docOk] using hx, okR_mkBlock o [] true cif hok hx⟩
+      exact ⟨okR_mkBlock o [] true cif hok hx, ⟨Or.inl rfl, by simpa using hx⟩, okR_mkBlock o [] true cif hok hx⟩
     · intro _
       exact hK
 
